@@ -18,6 +18,7 @@ import (
 	"context"
 	"errors"
 	"sync"
+	"sync/atomic"
 	"time"
 )
 
@@ -234,6 +235,10 @@ type ApplyStageRunner struct {
 	done    chan struct{}
 	running bool
 	mu      sync.Mutex
+
+	// completed, if set, is incremented once for every item the apply stage
+	// has finished with (applied, failed, or skipped).
+	completed *atomic.Int64
 }
 
 // NewApplyStageRunner creates a new runner for the apply stage.
@@ -267,6 +272,12 @@ func NewApplyStageRunner(
 // Must be called before Start() to avoid data races.
 func (r *ApplyStageRunner) SetMetrics(metrics *PipelineMetrics) {
 	r.metrics = metrics
+}
+
+// SetCompletionCounter sets a counter that is incremented once per item the
+// apply stage has finished processing. Must be called before Start().
+func (r *ApplyStageRunner) SetCompletionCounter(counter *atomic.Int64) {
+	r.completed = counter
 }
 
 // Start starts the apply stage runner.
@@ -333,6 +344,9 @@ func (r *ApplyStageRunner) run(ctx context.Context) {
 			// that became ready). This eliminates the data loss vulnerability from
 			// the previous callback-based approach where items could be dropped if
 			// the pending queue overflowed.
+			if r.completed != nil {
+				r.completed.Add(int64(len(processed)))
+			}
 			verifPoint("a.done", "apply", 0, nil, int64(len(processed)))
 			for _, p := range processed {
 				r.forwardItem(ctx, p)
